@@ -419,7 +419,7 @@ func genC06Bound(t *rapid.T, base int, today int, label string) c06Bound {
 }
 
 func genC06(t *rapid.T) c06Case {
-	layout := []string{"", "", "2006-01-02", "02.01.2006", "2006/02/01", "06/01/02"}[rapid.IntRange(0, 5).Draw(t, "layout")]
+	layout := []string{"", "", "2006-01-02", "02.01.2006", "2006/02/01", "06/01/02", "2006/1/2", "January 2, 2006", "Mon 2 Jan 2006", "20060102"}[rapid.IntRange(0, 9).Draw(t, "layout")]
 	c06NoFar = layout == "06/01/02"
 	defer func() { c06NoFar = false }()
 	// windows incl. month, year and leap-day boundaries and daylight-saving changes (2021-03-14 Havana/US, 2021-03-28 EU,
@@ -515,6 +515,13 @@ func genC06(t *rapid.T) c06Case {
 		if bs[k].Kind == "date" {
 			j := rapid.IntRange(0, len(c.S.Log.Recs)-1).Draw(t, "snapj")
 			bs[k].Day, c.BMins[k] = c.S.Days[j], c.Mins[j]
+			if c.Layout == "2006-01-02 15:04:05.000" && rapid.Bool().Draw(t, "snapnear") {
+				// not on the record but next to it, inside the same second or the neighbouring one
+				d := []int{-1, 1, -400, 400, -999, 999, -1000, 1000}[rapid.IntRange(0, 7).Draw(t, "snapdelta")]
+				if v := c.BMins[k] + d; v >= 0 && v < 86400000 {
+					c.BMins[k] = v
+				}
+			}
 			if c.Layout == c06ZoneLayout {
 				c.BOffs[k] = c.Offs[j]
 				if o2 := []int{0, 330, -210, 120}[rapid.IntRange(0, 3).Draw(t, "snapoff")]; rapid.Bool().Draw(t, "snapother") {
